@@ -14,7 +14,7 @@ namespace PPLV.Checked
 inductive Exact
   | nan | minf | pinf
   | frac (n : Int) (d : Int)     -- n / d, d > 0
-  | sqrt (n : Int)               -- the real √n, n ≥ 0
+  | sqrt (n : Int) (d : Int)     -- the real √(n/d), n ≥ 0, d > 0
 deriving DecidableEq, Repr, Inhabited
 
 namespace Exact
@@ -28,7 +28,7 @@ def cmpInt : Exact → Int → Option Ordering
   | minf, _ => some .lt
   | pinf, _ => some .gt
   | frac n d, s => some (compare n (s * d))
-  | sqrt n, s => if s < 0 then some .gt else some (compare n (s * s))
+  | sqrt n d, s => if s < 0 then some .gt else some (compare n (s * s * d))
 
 /-- how the exact value compares with an extended integer -/
 def cmpExt (e : Exact) (v : Ext Int) : Option Ordering :=
@@ -105,7 +105,7 @@ def exactUmod (a : Ext Int) (e : Nat) : Exact :=
 def exactSqrt (a : Ext Int) : Exact :=
   match a with
   | .nan => .nan | .minf => .nan | .pinf => .pinf
-  | .fin x => if x < 0 then .nan else .sqrt x
+  | .fin x => if x < 0 then .nan else .sqrt x 1
 
 def exactGcd (a b : Ext Int) : Exact :=
   match a, b with
